@@ -65,7 +65,11 @@ class HandleList(PList):
 
     def __pyvc_getitem__(self, eng, idx):
         if isinstance(idx, slice):
-            raise Unsupported("slice of a list of handles")
+            # list slicing copies: a new list of the same value objects, positions lo .. hi-1
+            cut = lambda c, k: npmodels.slice_view(eng, SArr(c, self.n, k), idx)
+            scal = {nm: (cut(c, k).arr, k) for nm, (c, k) in self.scal.items()}
+            vecs = {nm: (shape, k, dt, [cut(c, k).arr for c in cs]) for nm, (shape, k, dt, cs) in self.vecs.items()}
+            return HandleList(self.cls_, self.fixed, scal, vecs, cut(z3.K(z3.IntSort(), z3.IntVal(0)), "int").n)
         iz = models.norm_index(eng, idx, self.n, "list index")
         return self.get(iz)
 
@@ -433,6 +437,9 @@ def _np_array(eng, args, kwargs, stock):
         k = npmodels.kind_of_dtype(dt) if dt is not None else src.vkind
         if k != src.vkind:
             raise Unsupported("np.array of a list of arrays with a dtype conversion")
+        if not eng.branch(eng.sbool(zint(src.n) > 0)):
+            # np.array([]) knows nothing of the elements' shape: a 1-D float64 array of length 0
+            return NArr((0,), [], "real", np.dtype("float64") if dt is None else dt)
         return SRows(src.cells, src.n, src.inner, k, dt or src.vdtype)
     return stock(eng, args, kwargs)
 
@@ -466,3 +473,46 @@ models.EXTRA_MODELS[np.full] = _wrap_stock(np.full, _np_const(_fill))
 models.EXTRA_MODELS[np.concatenate] = _wrap_stock(np.concatenate, _np_concatenate)
 models.EXTRA_MODELS[np.array] = _wrap_stock(np.array, _np_array)
 models.EXTRA_MODELS[np.stack] = _wrap_stock(np.stack, _np_stack)
+
+
+# ---------------------------------------------------------------------------------------------------------------
+# scipy.sparse.coo_matrix((data, (row, col)), shape=(r, c), dtype=...) : recording model
+class CooRecord:
+    """What the carrier handed to scipy.sparse.coo_matrix: the triplet arrays (data[k], row[k], col[k]), the shape and the
+    dtype.  By scipy's definition the matrix entry (p, c) is the sum of data[k] over the triplets with row[k] = p and
+    col[k] = c (duplicates are summed); scipy rejects triplets outside the shape and triplet arrays of unequal length."""
+
+    def __init__(self, data, row, col, shape, dtype):
+        self.data, self.row, self.col, self.shape, self.dtype = data, row, col, shape, dtype
+        self.uid = next_uid()
+
+
+def _coo_matrix(eng, args, kwargs):
+    import scipy.sparse as sp  # noqa: F401
+
+    arg = args[0]
+    shape = kwargs.get("shape", args[1] if len(args) > 1 else None)
+    if not (isinstance(arg, tuple) and len(arg) == 2 and isinstance(arg[1], tuple) and len(arg[1]) == 2 and isinstance(shape, tuple) and len(shape) == 2):
+        raise Unsupported("scipy.sparse.coo_matrix: only the ((data, (row, col)), shape=(r, c)) form is modelled")
+    data, (row, col) = arg
+    if not all(isinstance(a, SArr) for a in (data, row, col)):
+        raise Unsupported("scipy.sparse.coo_matrix: triplet arrays of symbolic length expected")
+    eng.assumptions.add("scipy-model:coo_matrix((data, (row, col)), shape, dtype) records the triplets; ValueError unless the three arrays are equally long and every (row, col) lies inside the shape")
+    if not eng.spec_mode:
+        same = z3.And(data.nz() == row.nz(), row.nz() == col.nz())
+        if not eng.branch(eng.sbool(same)):
+            raise ProgExc(ValueError, "row, column, and data array must all be the same length")
+        k = z3.Int(fresh_name("ck"))
+        r, c = to_z3(shape[0], "int"), to_z3(shape[1], "int")
+        inside = z3.ForAll([k], z3.Implies(z3.And(k >= 0, k < row.nz()), z3.And(row.get(k).z >= 0, row.get(k).z < r, col.get(k).z >= 0, col.get(k).z < c)))
+        eng.prove(eng.site("coo-triplets-inside-the-shape"), inside, "safety", "scipy raises ValueError for an index outside the matrix")
+    return CooRecord(data, row, col, shape, kwargs.get("dtype"))
+
+
+def install():
+    import scipy.sparse as sp
+
+    models.EXTRA_MODELS[sp.coo_matrix] = _coo_matrix
+
+
+install()
